@@ -159,6 +159,8 @@ pub fn parent(a: &Args) {
         }
         _ => "ok",
       };
+      let deadline_hit = lines.iter().any(|l| l.contains("\"k\":\"sr\"") && l.contains("\"deadline_hit\":true"));
+      let tag = if deadline_hit && tag == "ok" { "deadline" } else { tag };
       let mut all = vec![header.to_string()];
       all.extend(lines);
       results.lock().unwrap().push((job.idx, all, tag));
@@ -171,11 +173,17 @@ pub fn parent(a: &Args) {
   let mut res = std::mem::take(&mut *results.lock().unwrap());
   res.sort_by_key(|r| r.0);
   let mut w = std::io::BufWriter::new(std::fs::File::create(&out).expect("create out"));
-  let (mut hung, mut crash, mut recs) = (0, 0, 0usize);
+  let (mut hung, mut crash, mut recs, mut deadline) = (0, 0, 0usize, 0);
   for (_, lines, tag) in &res {
     match *tag {
       "hung" => hung += 1,
       "crash" => crash += 1,
+      "deadline" => {
+        // shutdown returned because the library's join deadline expired, not because the writers finished:
+        // what is on disk then depends on the machine, so the history is not judged
+        deadline += 1;
+        continue;
+      }
       _ => {}
     }
     for l in lines {
@@ -185,7 +193,7 @@ pub fn parent(a: &Args) {
   }
   w.flush().unwrap();
   let _ = std::fs::remove_dir_all(&base);
-  println!("{}", json!({"configs": n, "mode": mode, "records": recs, "hung": hung, "crashed": crash}));
+  println!("{}", json!({"configs": n, "mode": mode, "records": recs, "hung": hung, "crashed": crash, "deadline_exceeded": deadline}));
 }
 
 // ------------------------------------------------------------------------------------------------ child
@@ -394,12 +402,17 @@ fn child_body(spec: &Value) {
   }
   let by_drop = spec["drop"].as_bool().unwrap();
   push(json!({"k": "sc", "how": if by_drop { "drop" } else { "shutdown" }, "returned": RETURNED.load(Ordering::SeqCst)}));
+  let t_shut = Instant::now();
+  // writer threads that are still running after the call were abandoned at the library's deadline
+  let handles_before = init.appender_task_handles.len();
   if by_drop {
     drop(init);
   } else {
     init.shutdown(Duration::from_secs(10));
   }
-  push(json!({"k": "sr"}));
+  let ms = t_shut.elapsed().as_millis() as u64;
+  let deadline_ms: u64 = if by_drop { 5000 } else { 10000 };
+  push(json!({"k": "sr", "ms": ms, "writers": handles_before, "deadline_hit": ms + 20 >= deadline_ms}));
   *shutdown_returned.lock().unwrap() = Some(Instant::now());
 
   // emitters finish their scripts (events after shutdown are discarded by the library)
